@@ -6,7 +6,7 @@
    to go, `act t` the part that has arrived, `sto t` the contents incl. transit. *)
 From Coq Require Import QArith Qminmax List Bool Arith.
 From WSI Require Import Vqip Pow Tank Arc QTank Run TankLaws ArcLaws QTankLaws QueueLaws.
-From WSI Require Import Distrib Kinds TimeArea DecayQTank QTankErasure Erasure TimeAreaLaws.
+From WSI Require Import Distrib Kinds TimeArea DecayQTank QTankErasure Erasure TimeAreaLaws TimeAreaArrival.
 Import ListNotations.
 Open Scope Q_scope.
 
@@ -107,6 +107,19 @@ Theorem C09_time_area_push_keeps_the_contents_declared : forall S (n : qnode S) 
   qledger (qn_t S (fst (qn_push_timearea S n v))) /\ plain_quiet (qn_t S (fst (qn_push_timearea S n v))).
 Proof. exact qn_push_timearea_ledger. Qed.
 Print Assumptions C09_time_area_push_keeps_the_contents_declared.
+
+(* a time-area split sends each fraction with its own delay: after push_set_land / push_set_timearea the bucket with k
+   close-outs to go has grown by exactly the fractions whose delay is k (each less what the tank handed back of it),
+   what has arrived by the fractions with delay 0; with the arrival theorems above each fraction is usable after exactly
+   its own number of close-outs *)
+Theorem C09_time_area_fractions_land_in_their_own_buckets : forall ta t v reply, qt_ok t -> wet v ->
+  (forall tf, In tf ta -> 0 <= snd tf <= 1 /\ eps <= vol v * snd tf) ->
+  let t' := fst (ta_push t v ta reply) in
+  qt_ok t' /\ delay t' = delay t /\
+  (forall c, conserved c -> cmp c (act t') == cmp c (act t) + ta_landed c t v ta 0) /\
+  (forall c k, conserved c -> k <> O -> cmp c (bucket t' k) == cmp c (bucket t k) + ta_landed c t v ta k).
+Proof. exact ta_push_lands. Qed.
+Print Assumptions C09_time_area_fractions_land_in_their_own_buckets.
 
 (* a decaying queue tank keeps the timetable of the plain one: the same operations on a QueueTank and a
    DecayQueueTank of the same dimensions make the same VOLUMES available at every step (with the arrival theorems
